@@ -1,6 +1,8 @@
 """C18 -- bulk connection helpers (PRNG seam, DESIGN 6.C18).  Thin use of the technique:
 the only simulated nondeterminism is the stream of mosaik.util's `random` module, which is
-rebound to a scripted source; World is a recorder stub."""
+rebound to a scripted source; World is a recorder stub - except in the real-World family (4 % of
+the cases), where the helpers connect the entities of started stub simulators on a real World, the
+scenario is run under a latency schedule and the run must show exactly the reported connections."""
 from __future__ import annotations
 
 import json
@@ -18,7 +20,10 @@ LEVEL = "exploration"
 RULE = ("a case is (|src| 0..12 (1 %: 1200-4001 onto 1-3 destinations), |dst| 1..8, max_connects 1..6 or inf, evenly on/off, helper, "
         "scripted random stream: seeded uniform / always lowest / always highest / round robin / "
         "fill one destination then the next); biased to the boundary |src| = |dst|*max_connects; "
-        "distinct+non-trivial = distinct case with at least two sources and two destinations")
+        "distinct+non-trivial = distinct case with at least two sources and two destinations; 4 % of the cases "
+        "call the helpers on a real World (1-3 source simulators with 1-4 entities, 1-2 destination simulators, "
+        "connect_many_to_one also with async_requests=True and an agent that writes to every source simulator) and "
+        "run it: data-flow and async permissions of the run = the connections the helper made")
 MODES = ("uniform", "lowest", "highest", "round_robin", "fill")
 
 
@@ -74,7 +79,62 @@ class RecWorld:
         self.calls.append((src, dest, attrs, kw))
 
 
+def gen_real(seed: int) -> Dict[str, Any]:
+    """The helpers called on a real World whose simulators are then run: what the helper reports to
+    have connected must be what the data-flow (and, with async_requests, the permission to make
+    asynchronous requests) of the run shows."""
+    rng = _random.Random(h64(seed, "c18real"))
+    helper = rng.choice(["many_to_one", "randomly"])
+    n_src = rng.choice([1, 2, 2, 3])
+    sims = []
+    for i in range(n_src):
+        sims.append({"sid": f"P{i}", "type": "time-based", "group": 0, "n_ent": rng.choice([1, 2, 3, 4]),
+                     "meta_style": 0, "transport": rng.choice(["gated", "gated", "stock", "remote"]),
+                     "beh": {"bseed": rng.randrange(1 << 30), "step_sizes": [rng.choice([1, 1, 2])]}})
+    n_dst = 1 if helper == "many_to_one" else rng.choice([1, 2, 2])
+    for i in range(n_dst):
+        sims.append({"sid": f"G{i}", "type": "time-based", "group": 0, "n_ent": rng.choice([1, 2, 3]),
+                     "meta_style": 0, "transport": rng.choice(["gated", "gated", "stock", "remote"]),
+                     "beh": {"bseed": rng.randrange(1 << 30), "step_sizes": [rng.choice([1, 1, 2])]}})
+    srcs = [[i, e] for i in range(n_src) for e in range(sims[i]["n_ent"])]
+    if rng.random() < 0.3:
+        rng.shuffle(srcs)
+    if rng.random() < 0.3 and len(srcs) > 1:
+        srcs = srcs[:rng.randrange(1, len(srcs))]
+    dsts = [[n_src + i, e] for i in range(n_dst) for e in range(sims[n_src + i]["n_ent"])]
+    asyn = helper == "many_to_one" and rng.random() < 0.5
+    b = {"helper": helper, "srcs": srcs, "dsts": dsts, "pairs": [["p_out", "m_in"]], "async": asyn,
+         "iterable": rng.choice(["list", "tuple", "generator"]), "mode": rng.choice(MODES),
+         "rseed": rng.randrange(1 << 30), "evenly": True, "max_connects": None}
+    if helper == "many_to_one":
+        b["dsts"] = [rng.choice(dsts)]
+        if asyn:
+            G = sims[n_src]
+            G["stub"] = "async"
+            calls = []
+            for i in sorted({si for si, _ in srcs}):
+                # (towards an entity of every source simulator: the link is one per simulator pair)
+                calls.append({"kind": "set_data", "p": rng.choice([0.6, 1.0]), "src_eid": f"e{b['dsts'][0][1]}",
+                              "dst": f"P{i}.e{rng.randrange(sims[i]['n_ent'])}", "attr": "m_in"})
+                if rng.random() < 0.3:
+                    calls.append({"kind": "get_data", "p": 0.7, "dst": f"P{i}.e0", "attrs": ["p_out"]})
+            G["beh"]["async_calls"] = calls
+    else:
+        b["evenly"] = rng.random() < 0.5
+        b["max_connects"] = rng.choice([None, 1, 2, 3])
+        if not b["evenly"] and b["max_connects"] is not None:
+            b["srcs"] = srcs = srcs[:len(dsts) * b["max_connects"]]
+        b["dest_iterable"] = rng.choice(["list", "tuple"])
+    sc = {"groups": [None], "sims": sims, "conns": [], "bulk": [b], "until": rng.choice([1, 2, 3, 4]),
+          "config": {"cache": rng.random() < 0.5, "lazy": rng.random() < 0.5, "debug": False, "mli": 100,
+                     "start_seed": None, "connect_seed": None, "order_seed": None, "iteration_cost": 0.0}}
+    from .. import gen
+    return {"real": True, "scenario": sc, "schedules": [gen.gen_schedule(seed, sc, rng.choice([0, 1, 2]))]}
+
+
 def make_case(seed: int, tier: str, prop: str, opts=None) -> Dict[str, Any]:
+    if h64(seed, "c18family") % 100 < 4:
+        return gen_real(seed)
     rng = _random.Random(h64(seed, "c18"))
     nd = rng.randint(1, 8)
     mc = rng.choice([None, 1, 1, 2, 3, 4, 6])
@@ -99,10 +159,146 @@ def make_case(seed: int, tier: str, prop: str, opts=None) -> Dict[str, Any]:
             "second_ns": rng.choice([None, None, rng.randint(0, 12)]),
             # real mosaik entities: the destinations belong to several instances of one simulator,
             # whose entity ids coincide (Grid-0.node_0, Grid-1.node_0, ...)
-            "entities": rng.choice([None, None, None, 2, 3])}
+            "entities": rng.choice([None, None, None, 2, 3]),
+            # connect_many_to_one(..., async_requests=True)
+            "async_flag": rng.random() < 0.3}
+
+
+def _bulk_hook(sc):
+    def hook(run, world, ents):
+        import mosaik.util as mu
+        for bi, b in enumerate(sc["bulk"]):
+            src = [ents[si][ei] for si, ei in b["srcs"]]
+            dst = [ents[si][ei] for si, ei in b["dsts"]]
+            orig = world.connect
+
+            def rec_connect(s_, d_, *attrs, _bi=bi, **kw):
+                run.rec("bulk_connect", _bi, s_.sid, s_.eid, d_.sid, d_.eid, attrs, tuple(sorted(kw.items())))
+                return orig(s_, d_, *attrs, **kw)
+            world.connect = rec_connect
+            saved = mu.random
+            mu.random = ScriptedRandom(b["mode"], b["rseed"])
+            pairs = [tuple(p_) for p_ in b["pairs"]]
+            try:
+                if b["helper"] == "many_to_one":
+                    how = b.get("iterable", "list")
+                    it = src if how == "list" else (tuple(src) if how == "tuple" else (e for e in src))
+                    kw = {"async_requests": True} if b["async"] else {}
+                    mu.connect_many_to_one(world, it, dst[0], *pairs, **kw)
+                    run.rec("bulk_result", bi, "ok", None)
+                else:
+                    kw = {"evenly": b["evenly"]}
+                    if b["max_connects"] is not None:
+                        kw["max_connects"] = b["max_connects"]
+                    dst_user = list(dst) if b.get("dest_iterable", "list") == "list" else tuple(dst)
+                    ret = mu.connect_randomly(world, src, dst_user, *pairs, **kw)
+                    run.rec("bulk_result", bi, "ok", sorted(e.full_id for e in ret))
+            except Exception as e:  # noqa: BLE001
+                run.rec("bulk_result", bi, "raised", type(e).__name__ + ": " + str(e)[:200])
+            finally:
+                mu.random = saved
+                del world.connect
+    return hook
+
+
+def run_real(case, prop) -> Dict[str, Any]:
+    import copy
+    from .. import runner
+    from ..refmodel import RM
+    from . import core as pcore
+    from . import c16 as pc16
+    sc = case["scenario"]
+    sp = case["schedules"][0]
+    out = {"runs": 1, "violations": [], "stats": {"real_world_cases": 1}, "fps": set(), "ntfps": set(),
+           "scen": {h64(json.dumps(sc, sort_keys=True))}, "sim_time": 0.0, "steps": 0, "aborted": 0, "completed": 0}
+    st = out["stats"]
+    r = runner.execute(sc, sp, hooks={"bulk": _bulk_hook(sc)})
+    out["sim_time"] = r.stats["vtime"]
+    hd = digest(r.hist)
+    out["fps"].add(pcore.fingerprint(r.hist))
+    b = sc["bulk"][0]
+    feats = {"helper": b["helper"], "evenly": b["evenly"], "real_world": True, "async": bool(b["async"])}
+    viols = []
+    idx = {s["sid"]: i for i, s in enumerate(sc["sims"])}
+    made = [h for h in r.hist if h[0] == "bulk_connect"]
+    result = next((h for h in r.hist if h[0] == "bulk_result"), None)
+    st["helper_" + b["helper"]] = 1
+    if len(b["srcs"]) >= 2 and len(b["dsts"]) >= 2:
+        out["ntfps"].add(h64(next(iter(out["scen"])), "real"))
+    if r.outcome[0] == "start_error" or result is None:
+        raise RuntimeError(f"harness: real-world C18 case did not reach the helper: {r.outcome}")
+    if result[2] == "raised":
+        out["aborted"] = 1
+        viols.append({"kind": "raised_on_valid_input", "features": dict(feats, exc=result[3].split(":")[0]),
+                      "detail": {"bulk": b, "error": result[3]}})
+    else:
+        srcs = [(sc["sims"][si]["sid"], f"e{ei}") for si, ei in b["srcs"]]
+        dsts = [(sc["sims"][si]["sid"], f"e{ei}") for si, ei in b["dsts"]]
+        per_src, counts = {}, {}
+        for h in made:
+            per_src[(h[2], h[3])] = per_src.get((h[2], h[3]), 0) + 1
+            counts[(h[4], h[5])] = counts.get((h[4], h[5]), 0) + 1
+            kw = dict(h[7])
+            if bool(kw.get("async_requests", False)) != bool(b["async"]) or \
+                    any(v_ not in (False, 0, None) and v_ != {} for k_, v_ in kw.items() if k_ != "async_requests"):
+                viols.append({"kind": "wrong_keywords_passed", "features": feats, "detail": {"bulk": b, "kw": kw}})
+                break
+        if any(per_src.get(s_, 0) != 1 for s_ in srcs) or len(made) != len(srcs):
+            viols.append({"kind": "source_not_connected_exactly_once", "features": feats,
+                          "detail": {"bulk": b, "per_source": {repr(k): v for k, v in per_src.items()}}})
+        if any(d_ not in dsts for d_ in counts):
+            viols.append({"kind": "connected_outside_destination_set", "features": feats, "detail": {"bulk": b}})
+        if b["helper"] == "randomly":
+            if b["evenly"]:
+                allc = [counts.get(d_, 0) for d_ in dsts]
+                if allc and max(allc) - min(allc) > 1:
+                    viols.append({"kind": "not_even", "features": feats, "detail": {"bulk": b, "counts": allc}})
+            elif b["max_connects"] is not None and counts and max(counts.values()) > b["max_connects"]:
+                viols.append({"kind": "max_connects_exceeded", "features": feats, "detail": {"bulk": b}})
+            if sorted(f"{a}.{e}" for a, e in counts) != list(result[3]):
+                viols.append({"kind": "returned_set_wrong", "features": feats,
+                              "detail": {"bulk": b, "returned": result[3]}})
+        # what the run shows: data-flow (and async permissions) of exactly these connections
+        sc_eff = copy.deepcopy(sc)
+        for h in made:
+            sc_eff["conns"].append({"src": idx[h[2]], "se": int(h[3][1:]), "dst": idx[h[4]], "de": int(h[5][1:]),
+                                    "pairs": [list(p_) if isinstance(p_, (tuple, list)) else [p_, p_] for p_ in h[6]],
+                                    "shift": 0, "weak": False, "async": bool(dict(h[7]).get("async_requests", False))})
+        rm = RM(sc_eff)
+        oc = r.outcome
+        if not viols and all(v_ is None for v_ in rm.verdicts):
+            if oc[0] != "ok":
+                out["aborted"] = 1
+                viols.append({"kind": "run_failed_after_bulk_connect",
+                              "features": dict(feats, outcome=oc[0], type=oc[1] if oc[0] == "exception" else None),
+                              "detail": {"bulk": b, "outcome": list(oc), "tb": (r.tb or "")[-600:]}})
+            else:
+                out["completed"] = 1
+                byp, info = pcore.analyse_run(sc_eff, rm, r, want_lazy_probe=False)
+                out["steps"] = info.get("steps", 0)
+                for p_ in (("C02",) if b["async"] else ("C01", "C02", "C03")):
+                    for v_ in byp.get(p_, [])[:1]:
+                        viols.append({"kind": "run_differs_from_reported_connections",
+                                      "features": dict(feats, oracle=p_, what=v_["kind"]),
+                                      "detail": {"bulk": b, "violation": v_["detail"]}})
+                if b["async"]:
+                    vs, n_set = pc16.check_history(sc_eff, r)
+                    st["real_world_set_data_calls"] = n_set
+                    for v_ in vs[:1]:
+                        viols.append({"kind": "async_requests_not_as_connected",
+                                      "features": dict(feats, what=v_["kind"]), "detail": {"bulk": b, "violation": v_["detail"]}})
+    for v in viols:
+        v["digest"] = hd
+        v["case"] = case
+    out["violations"] = viols
+    out["sample"] = None
+    out["digest"] = hd
+    return out
 
 
 def run_case(case, prop) -> Dict[str, Any]:
+    if case.get("real"):
+        return run_real(case, prop)
     import mosaik.util as mu
     out = {"runs": 1, "violations": [], "stats": {}, "fps": set(), "ntfps": set(),
            "scen": set(), "sim_time": 0.0, "steps": 0, "aborted": 0, "completed": 0}
@@ -132,7 +328,7 @@ def run_case(case, prop) -> Dict[str, Any]:
             # src_set is documented as an Iterable: a list, a tuple or a one-shot iterator
             how = case.get("iterable", "list")
             it = src if how == "list" else (tuple(src) if how == "tuple" else (e for e in src))
-            mu.connect_many_to_one(w, it, dst[0], *attrs)
+            mu.connect_many_to_one(w, it, dst[0], *attrs, **({"async_requests": True} if case.get("async_flag") else {}))
         else:
             kw = {"evenly": case["evenly"]}
             if case["max_connects"] is not None:
@@ -176,6 +372,11 @@ def run_case(case, prop) -> Dict[str, Any]:
             counts[id(d)] = counts.get(id(d), 0) + 1
             if a != tuple(attrs):
                 viols.append({"kind": "wrong_attrs_passed", "features": feats, "detail": {"case": case}})
+                break
+            want_async = bool(case.get("async_flag")) and case["helper"] == "many_to_one"
+            if bool(kw.get("async_requests", False)) != want_async or \
+                    any(v_ not in (False, 0, None) and v_ != {} for k_, v_ in kw.items() if k_ != "async_requests"):
+                viols.append({"kind": "wrong_keywords_passed", "features": feats, "detail": {"case": case, "kw": repr(kw)}})
                 break
         if case["helper"] == "many_to_one":
             if any(d is not dst[0] for _, d, _, _ in w.calls) or \
@@ -237,6 +438,36 @@ def run_case(case, prop) -> Dict[str, Any]:
 
 
 def shrink_candidates(case, prop):
+    if case.get("real"):
+        import copy
+        sc, sp = case["scenario"], case["schedules"][0]
+        if sp.get("profile") != "sync":
+            yield dict(case, schedules=[{"profile": "sync", "seed": 0}])
+        b = sc["bulk"][0]
+        for i in reversed(range(len(b["srcs"]))):
+            if len(b["srcs"]) > 1:
+                sc2 = copy.deepcopy(sc)
+                del sc2["bulk"][0]["srcs"][i]
+                yield dict(case, scenario=sc2)
+        for i in reversed(range(len(b["dsts"]))):
+            if len(b["dsts"]) > 1:
+                sc2 = copy.deepcopy(sc)
+                del sc2["bulk"][0]["dsts"][i]
+                b2 = sc2["bulk"][0]
+                if not b2["evenly"] and b2["max_connects"] is not None and len(b2["srcs"]) > len(b2["dsts"]) * b2["max_connects"]:
+                    continue
+                yield dict(case, scenario=sc2)
+        for u in (1, 2):
+            if u < sc["until"]:
+                sc2 = copy.deepcopy(sc)
+                sc2["until"] = u
+                yield dict(case, scenario=sc2)
+        for i, s_ in enumerate(sc["sims"]):
+            if s_.get("transport") != "gated":
+                sc2 = copy.deepcopy(sc)
+                sc2["sims"][i]["transport"] = "gated"
+                yield dict(case, scenario=sc2)
+        return
     for k in ("ns", "nd"):
         for v in sorted({0 if k == "ns" else 1, case[k] // 2, case[k] - 1}):
             if (k == "nd" and v < 1) or v < 0 or v >= case[k]:
